@@ -5,6 +5,7 @@ result line per request.  Floats travel as decimal bit patterns.
 -/
 import Kodama.Model.Linkage
 import Kodama.DriverC19
+import Kodama.DriverAlloc
 namespace Kodama
 
 class Bits (α : Type) where
@@ -46,6 +47,7 @@ structure DriverState where
   s64 : Slots Float := ⟨[]⟩
   s32 : Slots Float32 := ⟨[]⟩
   c19 : C19State := {}
+  alloc : AllocState := {}
 
 def doCall {α} [Num α] [Bits α] (alg : Alg) (m : Method) (chk : Bool) (n : Nat) (bits : Array Nat) :
     String :=
@@ -83,6 +85,9 @@ def step (ds : DriverState) (line : String) : DriverState × String :=
         ({ ds with s32 := s }, out)
       else (ds, "bad-op")
     | _, _, _, _, _ => (ds, "bad-op")
+  | "alloc" :: rest =>
+    let (a, out) := stepAlloc ds.alloc rest
+    ({ ds with alloc := a }, out)
   | "dend" :: rest =>
     let (c, out) := stepC19 ds.c19 rest
     ({ ds with c19 := c }, out)
